@@ -11,8 +11,8 @@ import common
 from framework import Case, Finding
 
 PROP = "C13"
-GENERATED = ['Guards', 'SrcDecorate', 'SrcHints', 'SrcDeps', 'SrcLogs', 'SrcConstants', 'SrcLogCalls', 'HintLoop', 'Decorate', 'Wrapper', 'Core', 'Classes', 'ClassDecor']  # generated files this check's tie depends on
-LEAN_MODULES = ["Properties.C13", "Properties.Prov.Decorate", "Properties.Prov.Hints", "Properties.Prov.Deps", "Properties.Prov.Logs", "Properties.Prov.Constants", "Properties.Prov.LogCalls", "Properties.CoreHints", "Properties.CoreDecorate", "Properties.CoreWrap", "Properties.Core", "Properties.CoreClasses", "Properties.CoreClassDecor"]
+GENERATED = ['Guards', 'SrcDecorate', 'SrcHints', 'SrcDeps', 'SrcLogs', 'SrcConstants', 'SrcLogCalls', 'HintLoop', 'Decorate', 'Wrapper', 'Core', 'Classes', 'ClassDecor', 'Resolve']  # generated files this check's tie depends on
+LEAN_MODULES = ["Properties.C13", "Properties.Prov.Decorate", "Properties.Prov.Hints", "Properties.Prov.Deps", "Properties.Prov.Logs", "Properties.Prov.Constants", "Properties.Prov.LogCalls", "Properties.CoreHints", "Properties.CoreDecorate", "Properties.CoreWrap", "Properties.Core", "Properties.CoreClasses", "Properties.CoreClassDecor", "Properties.CoreResolve"]
 NEEDS_DTYPES = False
 RULE = (
     "exhaustive matrix in fresh interpreters: DLTYPE_DISABLE in {unset, 0, 1, true, false, yes, lower-case variable name=1} x "
